@@ -1051,6 +1051,43 @@ Qed.
 Corollary symmetrize_safe : exists s, symmetrize V vadd vhalf p N = Ok s.
 Proof. destruct symmetrize_ok as (rc & s & _ & _ & _ & E & _). now exists s. Qed.
 
+(* ---------- D. the result represents (P + P^T)/2 ---------- *)
+
+(* how many entries row r of the symmetric matrix has: all y with P(r,y) or P(y,r) stored *)
+Definition targetb (r y : nat) : bool := memb y (row_cols p r) || memb r (row_cols p y).
+Definition T (r : nat) : list nat := filter (targetb r) (seq 0 N).
+
+Lemma SC_target : forall r, r < N -> SC r = length (T r).
+Proof.
+  intros r Hr. unfold SC, T. rewrite <- nsum_indicator_length.
+  (* split cC into its two summands *)
+  rewrite (nsum_ext _ (fun n => nsum (map (fun c => d1 r n) (row_cols p n))
+                               + nsum (map (fun c => if presentb n c then 0 else d1 r c) (row_cols p n)))).
+  2:{ intros n Hn. apply in_seq in Hn. rewrite (row_sum_cols (fun c => cC n c r) n) by lia.
+      unfold cC. now rewrite nsum_add. }
+  rewrite nsum_add.
+  (* first summand: |row r| = #{y : y in row r} *)
+  rewrite (nsum_ext (fun n => nsum (map (fun _ => d1 r n) (row_cols p n)))
+                    (fun n => if Nat.eqb n r then nsum (map (fun _ => 1) (row_cols p n)) else 0)).
+  2:{ intros n _. unfold d1. destruct (Nat.eqb_spec r n) as [->|NE].
+      - now rewrite Nat.eqb_refl.
+      - destruct (Nat.eqb_spec n r) as [E|_]; [congruence|]. apply nsum_zero. reflexivity. }
+  rewrite (nsum_single_seq (fun n => nsum (map (fun _ => 1) (row_cols p n))) r N Hr).
+  rewrite (count_nodup_seq (fun _ => true) (row_cols p r) (WF_nodup r Hr) (fun c Hc => row_cols_lt r c Hr Hc)).
+  (* second summand: #{n : r in row n, n not in row r} *)
+  rewrite (nsum_ext (fun n => nsum (map (fun c => if presentb n c then 0 else d1 r c) (row_cols p n)))
+                    (fun n => if memb r (row_cols p n) && negb (memb n (row_cols p r)) then 1 else 0)).
+  2:{ intros n Hn. apply in_seq in Hn.
+      rewrite (nsum_ext _ (fun c => if Nat.eqb c r && negb (memb n (row_cols p r)) then 1 else 0)).
+      - now rewrite nsum_indicator_eq with (f := fun _ => negb (memb n (row_cols p r))) by (apply WF_nodup; lia).
+      - intros c Hc. rewrite (presentb_memb n c (row_cols_lt n c ltac:(lia) Hc)). unfold d1.
+        destruct (Nat.eqb_spec c r) as [->|NE].
+        + rewrite Nat.eqb_refl. cbn [andb]. destruct (memb n (row_cols p r)); reflexivity.
+        + destruct (Nat.eqb_spec r c) as [E|_]; [congruence|]. cbn [andb]. destruct (memb n (row_cols p c)); reflexivity. }
+  rewrite <- nsum_add. apply nsum_ext. intros y _. unfold targetb.
+  destruct (memb y (row_cols p r)), (memb r (row_cols p y)); reflexivity.
+Qed.
+
 End Sym2.
 
 (* non-vacuity: a well-formed input *)
